@@ -118,3 +118,17 @@ Example C03_example_unlocking_ignored :
   fst (calc_input_preimage_legacy ex_tx 0 1) = fst (calc_input_preimage_legacy ex_tx_filled 0 1) /\
   fst (calc_input_preimage_legacy ex_tx 0 1) <> SOk default_hex.
 Proof. split; vm_compute; [reflexivity|discriminate]. Qed.
+
+(** the hash-type constants of the model are those of sighash/flag.go (regenerated from the Go source on every run) *)
+From Coq Require Import String ZArith.
+From GoBT Require Import gen.MiscConsts proofs.InterpConstsProofs proofs.MiscConstsProofs.
+Local Open Scope string_scope.
+Theorem C03_sighash_constants_match :
+  lookup sighash_consts "All" = Some (Z.of_N sh_all) /\
+  lookup sighash_consts "None" = Some (Z.of_N sh_none) /\
+  lookup sighash_consts "Single" = Some (Z.of_N sh_single) /\
+  lookup sighash_consts "AnyOneCanPay" = Some (Z.of_N sh_anyonecanpay) /\
+  lookup sighash_consts "ForkID" = Some (Z.of_N sh_forkid) /\
+  lookup sighash_consts "Mask" = Some (Z.of_N sh_mask).
+Proof. destruct sighash_consts_match as (H1 & H2 & H3 & H4 & H5 & H6 & _). repeat split; assumption. Qed.
+Print Assumptions C03_sighash_constants_match.
